@@ -67,6 +67,8 @@ func t3Body(s HarnessSpec) (func(x *gosym.Exec), error) {
 		return gosym.T3Float32Range(p), nil
 	case "intrange":
 		return gosym.T3IntRange(p, s.T3Bits, s.T3Signed, s.T3Native), nil
+	case "structopts":
+		return gosym.T3StructFieldOptions(p), nil
 	case "structsyntax":
 		return gosym.T3StructSyntax(p), nil
 	case "mapkey":
